@@ -390,7 +390,7 @@ CatalogFragment::CatalogFragment(DFS::Format format,
 	    os << "to contain a valid " << format_name(disc_format_)
 	       << " catalog, we must be able to read the first "
 	       << "two sectors of the file system";
-	    throw new BadFileSystem(os.str());
+	    throw BadFileSystem(os.str());
 	  }
 	fragments_.push_back(CatalogFragment(format, *names, *metadata));
       }
